@@ -539,15 +539,29 @@ class Inliner:
         if r is None or d <= 0:
             return None
         callee, skip = r[0], r[1]
-        if callee.name in stack or callee.args.vararg or callee.args.kwarg or _contains(callee, (ast.YieldFrom, ast.Await)):
+        if callee.name in stack or callee.args.kwarg or _contains(callee, (ast.YieldFrom, ast.Await)):
             return None
         body = real_body(callee)
         if not body:
             return None
+        star_extra = None
+        if callee.args.vararg:
+            # f(a, *rest) called with plain positional arguments: rest is the tuple of the extra ones
+            if any(isinstance(a, ast.Starred) for a in call.args):
+                return None
+            npos = len(callee.args.posonlyargs + callee.args.args) - (1 if skip else 0)
+            star_extra = (callee.args.vararg.arg, ast.Tuple(elts=[copy.deepcopy(a) for a in call.args[npos:]], ctx=ast.Load()))
+            callee = copy.copy(callee)
+            callee.args = copy.copy(callee.args)
+            callee.args.vararg = None
+            call = copy.copy(call)
+            call.args = list(call.args[:npos])
         b = norm.bind_call(callee, call, skip)
         if b is None:
             return None
         env: dict[str, ast.expr] = {p: copy.deepcopy(a) for p, a in b.items()}
+        if star_extra is not None:
+            env[star_extra[0]] = star_extra[1]
         if skip and isinstance(call.func, ast.Attribute):
             selfname = (callee.args.posonlyargs + callee.args.args)[0].arg
             if not (isinstance(call.func.value, ast.Name) and call.func.value.id == selfname):
